@@ -98,11 +98,11 @@ func c20PubString(ps []c20Pub) string {
 
 func TestC20_FinalizedDKGQueuesEonKey(t *testing.T) {
 	rec := recorder("C20")
-	rec.AddRule("production side (package dkgprops): complete DKG runs over faketm with the real follower code on pgfake (fixed scenarios: all honest; Byzantine dealer that stays qualified; Byzantine dealer disqualified, n=4; one honest keyper whose DKG fails while the other succeeds; t=n DKG that fails for everybody and is restarted by shuttermint as a new eon; plus scenarios drawn from C07's generator). Per honest keyper and eon: a dkg_result row with success => exactly one outgoing_eon_keys row for that eon whose key is the PublicKey of its stored result and the key of every other successful honest keyper; failure or no result => no row. Then the real eonPubKeyHandler (alternating broadcast / callback mode) runs on that database: it must publish exactly these keys, each once, with eon number, activation block 100 and keyper-set index 1 of the harness's keyper set, correctly signed in broadcast mode, and leave the table empty; a second tick publishes nothing. non-trivial = the run has a Byzantine keyper, a failed DKG row or a restarted eon; distinct = scenario + schedule")
+	rec.AddRule("production side (package dkgprops): complete DKG runs over faketm with the real follower code on pgfake (fixed scenarios: all honest; Byzantine dealer that stays qualified; Byzantine dealer disqualified, n=4; one honest keyper whose DKG fails while the other succeeds; t=n DKG that fails for everybody and is restarted by shuttermint as a new eon; plus scenarios drawn from C07's generator). Per honest keyper and eon: a dkg_result row with success => exactly one outgoing_eon_keys row for that eon whose key is the PublicKey of its stored result and the key of every other successful honest keyper; failure or no result => no row. Then the real eonPubKeyHandler (alternating broadcast / callback mode) runs on that database: it must publish exactly these keys, each once, with its eon number and the activation block and keyper-set index of that eon's keyper set (set 1 / block 100; in scenarios with two overlapping key generations also set 2 / block 200), correctly signed in broadcast mode, and leave the table empty; a second tick publishes nothing. non-trivial = the run has a Byzantine keyper, a failed DKG row or a restarted eon; distinct = scenario + schedule")
 	rec.Assume(
 		"pgfake executes the repository's schema and queries like PostgreSQL",
 		"faketm delivers broadcasts into the open block immediately; sequential schedule",
-		"the keyper belongs to the keyper set of every eon in these runs (single keyper set, index 1, activation block 100)",
+		"the keyper belongs to the keyper set of every eon in these runs (keyper set 1, activation block 100; with overlapping eons also set 2, activation block 200, same members)",
 	)
 	ctx := context.Background()
 	scs := c20Fixed()
@@ -155,6 +155,22 @@ func TestC20_FinalizedDKGQueuesEonKey(t *testing.T) {
 			fail("panic", "keyper panics %v, app panics %v\n%s", r.keyperPanics, r.chain.AppPanics, r.history())
 		}
 		starts := r.eonStarts()
+		eonMeta := map[uint64][2]uint64{} // eon -> (activation block, keyper-set index) from the EonStarted events
+		for _, tx := range r.chain.AllTxs {
+			for _, ev := range tx.Events {
+				if e, err := shutterevents.MakeEvent(ev, tx.Height); err == nil {
+					if es, ok := e.(*shutterevents.EonStarted); ok {
+						eonMeta[es.Eon] = [2]uint64{es.ActivationBlockNumber, es.KeyperConfigIndex}
+					}
+				}
+			}
+		}
+		for eon, m := range eonMeta {
+			// the harness's two keyper sets
+			if !(m == [2]uint64{keyperSetActivation, 1} || m == [2]uint64{keyperSet2Activation, 2}) {
+				fail("unexpected-eon", "eon %d announced with activation block %d, keyper set %d", eon, m[0], m[1])
+			}
+		}
 		// --- per keyper: dkg_result rows vs outgoing_eon_keys rows
 		type res struct {
 			success bool
@@ -200,7 +216,12 @@ func TestC20_FinalizedDKGQueuesEonKey(t *testing.T) {
 					if err := got.GobDecode(rows[0]); err != nil || !got.Equal(x.key) {
 						fail("queued-key-differs-from-result", "k%d eon %d: the queued eon public key is not the PublicKey of the stored DKG result (decode err=%v)\n%s", p, eon, err, r.history())
 					}
-					expected[p] = append(expected[p], c20Pub{eon, keyperSetActivation, 1, string(rows[0])})
+					// activation block and keyper-set index of the eon as shuttermint announced them
+					meta, ok := eonMeta[eon]
+					if !ok {
+						fail("result-for-unknown-eon", "k%d has a DKG result for eon %d that shuttermint never started\n%s", p, eon, r.history())
+					}
+					expected[p] = append(expected[p], c20Pub{eon, meta[0], meta[1], string(rows[0])})
 				case len(rows) != 0:
 					fail("eon-key-queued-for-failed-dkg", "k%d: DKG of eon %d failed but %d outgoing_eon_keys rows exist\n%s", p, eon, len(rows), r.history())
 				}
@@ -286,7 +307,14 @@ func TestC20_FinalizedDKGQueuesEonKey(t *testing.T) {
 		if nSucc > 0 {
 			labels = append(labels, "dkgprops:successful-dkg-row")
 		}
-		if len(starts) > 1 {
+		if cs.Sc.Overlap != nil && len(eonMeta) > 1 {
+			labels = append(labels, "dkgprops:two-overlapping-eons")
+		}
+		nSets := map[uint64]bool{}
+		for _, m := range eonMeta {
+			nSets[m[1]] = true
+		}
+		if len(starts) > len(nSets) {
 			labels = append(labels, "dkgprops:restarted-eon")
 		}
 		rec.LabelN("dkgprops:successful-dkg-rows", nSucc)
